@@ -967,10 +967,21 @@ func ruleC01SEL(w *World) []Ob {
 				}
 			}
 			got := ""
+			extraGuard := ""
 			allInstrs(fn, func(in ssa.Instruction) {
 				c, ok := nodeMethodCall(in, "setPath")
 				if !ok {
 					return
+				}
+				for _, g := range guardsOf(c.Block()) {
+					cc, _ := flattenCond(g.Cond, g.Pol)
+					if _, _, isNil := nilTest(cc, true); isNil {
+						continue
+					}
+					if call, isC := cc.(*ssa.Call); isC && call.Common().StaticCallee() != nil && call.Common().StaticCallee().Name() == "isRoot" {
+						continue
+					}
+					extraGuard = describeValue(cc)
 				}
 				t := &termer{p: p, node: nodes[0]}
 				elems, _ := variadicElems(c.Common().Args[1])
@@ -984,7 +995,9 @@ func ruleC01SEL(w *World) []Ob {
 				}
 				got = strings.Join(parts, ",")
 			})
-			if got == want[kind] {
+			if extraGuard != "" {
+				l.bad(name, "path assembly", p.Pos(fn.Pos()), "the path element is added only when "+extraGuard+" holds: for some option values ancestors are missing from Path()", "path")
+			} else if got == want[kind] {
 				l.ok(name, "path assembly", p.Pos(fn.Pos()), "setPath("+got+")", true, "path")
 			} else {
 				l.bad(name, "path assembly", p.Pos(fn.Pos()), "setPath("+got+"), expected setPath("+want[kind]+"): ancestors' names must be placed before the node's path", "path")
